@@ -17,6 +17,7 @@ RULE = ("case = one paired execution (frame rotation or two-fold relabelling) at
         "Q (or the set of relabelled grains) is not the identity and the base rates/texture change are non-zero")
 ASSUMPTIONS = [
     "integrated textures compared within 5e-3 + 1e-3*(N + 2*strain) (LSODA error control is component-wise, not frame-invariant)",
+    "integrated pairs use generic textures (axis-aligned grains with exactly vanishing slip invariants make the model singular; they are covered by C03's totality oracle and by the rate-level relation on resolved grains)",
     "a GBS mask flip of a grain whose pre-floor volume is within 1% + 3e-4 of chi/n in both runs ends the comparison of that history (counted)",
 ]
 TOLERANCES = {"rate": "1e-9*(1+|x|)", "integrated": "5e-3 + 1e-3*(N + 2*strain)"}
@@ -47,6 +48,10 @@ def gen_cases(ctx):
         if rng.random() < 0.5:
             c["params"]["gbs_threshold"] = 0.0
         c["F0"] = str(rng.choice(["I", "random"]))
+        # integrated pairs use generic textures: at exactly axis-aligned grains (all slip invariants exactly
+        # zero) the model is singular -- the rotated copy carries 1e-17 rounding noise in the invariants and
+        # the scale-free slip ratios amplify it to O(1) -- so such grains are ill-conditioned (see C03)
+        c["tex"] = str(rng.choice(["random", "cluster_tight", "cluster", "cluster_wide", "girdle", "single"]))
         yield c
 
 
@@ -138,7 +143,8 @@ def _integrated(ctx, pydrex, case):
         Lf, pf = H.Lfun, H.posfun
         pr = drive.PairRun(ctx, pydrex, mon, case, H, "int-rot")
         ok = pr.compare(m1, m2, {}, {"Lfun": (lambda t, x: Q @ Lf(t, x) @ Q.T), "F0": Q @ H.F0 @ Q.T},
-                        mapA=lambda A: A @ Q.T, mapF=lambda F: Q @ F @ Q.T, tol_of=tol_of)
+                        mapA=lambda A: A @ Q.T, mapF=lambda F: Q @ F @ Q.T, tol_of=tol_of,
+                        fresh=lambda: (H.mineral(), H.mineral(A0=H.A0 @ Q.T)))
         nontriv = qk != "identity"
     else:
         S = np.stack([gen.TWOFOLDS[int(k)] if flip else np.eye(3)
